@@ -29,10 +29,11 @@ MONITOR = {11: 'a (source, destination, sequence) triple was accepted twice',
            16: 'a stored acknowledgement changed or disappeared',
            17: 'a commitment disappeared without an accepted acknowledgement of exactly that packet',
            18: 'a second acknowledgement of the same packet was accepted',
+           23: 'an acknowledgement appeared in the store that is not the one of an accepted receive of exactly that triple',
            19: 'an accepted receive / acknowledgement was not verified by the counterparty client for the recomputed (path, value)',
            22: 'a rejected message changed balances / bindings',
            6: 'malformed case'}
-KINDS = {'C01': {11, 12, 20, 21, 22, 6}, 'C02': {19, 12, 22, 6}, 'C04': {13, 14, 12, 22, 6}, 'C05': {15, 16, 17, 18, 6}}
+KINDS = {'C01': {11, 12, 20, 21, 22, 6}, 'C02': {19, 12, 22, 6}, 'C04': {13, 14, 12, 22, 6}, 'C05': {15, 16, 17, 18, 23, 6}}
 # what the self-named-client witness (hypothesis O7) is expected to break on the real code
 O7_EXPECT = {'C04': {13}, 'C05': {13, 17, 18}, 'C01': set(), 'C02': set()}
 
@@ -345,7 +346,7 @@ def check(run, prop):
     # ---- the O7 witness: the hypothesis is necessary on the real code (informational, never a violation) ----
     o7_seen = sorted({k for h, s, k in ff if h in o7_cases})
     run.coverage['o7_witness_monitor_kinds_on_real_code'] = o7_seen
-    ff = [f for f in ff if not (f[0] in o7_cases and f[2] in O7_EXPECT[prop] | {13, 17, 18})]
+    ff = [f for f in ff if not (f[0] in o7_cases and f[2] in O7_EXPECT[prop] | {13, 17, 18, 23})]
     mm_o7 = [m for m in mm if m[0] in o7_cases]
     ff = [f for f in ff if f[2] in kinds]
 
